@@ -5,9 +5,19 @@
    unchanged tree it is the identity (canon_go_id, by computation), so every theorem about `parse go_grammar ...`
    is a theorem about the function the correspondence runs. *)
 From Coq Require Import List String Bool.
-From Bexpr Require Import Base Ast Unicode Peg GoGrammar PegGrammar ActionsPinned C20.
+From Bexpr Require Import Base Ast Unicode Peg GoGrammar PegGrammar ActionsPinned.
 Import ListNotations.
 Open Scope string_scope.
+
+(* the code blocks of an expression, in pre-order (the order in which pigeon emits the on*/callon* functions) *)
+Fixpoint code_ids (e : pexpr) : list string :=
+  match e with
+  | PAction id e' => id :: code_ids e'
+  | PAndCode id | PNotCode id => [id]
+  | PAnd e' | PNot e' | PLabeled _ e' | PStar e' | PPlus e' | POpt e' => code_ids e'
+  | PChoice l | PSeq l => flat_map code_ids l
+  | PAny | PClass _ | PLit _ _ | PRef _ => []
+  end.
 
 Fixpoint sassoc (k : string) (l : list (string * string)) : option string :=
   match l with [] => None | (k', v) :: r => if String.eqb k k' then Some v else sassoc k r end.
